@@ -48,3 +48,21 @@ Theorem C12_argstr_roundtrip : forall T W, agree_b T W = true -> tlookup T colon
   exists w, argstr W ss = Some w /\ from_argstr T w = OK ss.
 Proof. intros T W H. exact (argstr_roundtrip T W (agree_b_sound T W H)). Qed.
 Print Assumptions C12_argstr_roundtrip.
+
+(* Whitespace: both parsers ignore whitespace characters entirely — the outcome (sentence or
+   error class) and the store after parsing i equal those of parsing i with every whitespace
+   character removed.  (Standard notation: incl. paren scan-ahead positions and the
+   drop_parens retry; the wrapping parenthesis characters must not be whitespace.) *)
+From PT Require Import Lang.ParsePolishProofs Lang.ParseStd Lang.Whitespace Lang.WhitespaceStd.
+Theorem C12_parse_polish_ws : forall C, table_ok (tab C) = true ->
+  frozen C = false \/ auto_preds C = false ->
+  forall P i, parse_polish C P i = parse_polish C P (strip (tab C) i).
+Proof. exact parse_polish_ws. Qed.
+Print Assumptions C12_parse_polish_ws.
+
+Theorem C12_parse_std_ws : forall C, table_ok (tab C) = true ->
+  frozen C = false \/ auto_preds C = false ->
+  forall O P i, is_ws (tab C) (popen O) = false -> is_ws (tab C) (pclose O) = false ->
+  parse_std_opts C O P i = parse_std_opts C O P (strip (tab C) i).
+Proof. exact parse_std_ws. Qed.
+Print Assumptions C12_parse_std_ws.
